@@ -42,6 +42,9 @@ def menu(h, tier="quick"):
     for p in parents:
         out.append(["addnode", p.idx, "custom"])
         out.append(["addnode", p.idx, "const"])
+        if p == h.root:
+            out.append(["addnode", p.idx, "natdecl"])
+            out.append(["addnode", p.idx, "nullconst"])
         out.append(["insert", "one", p.idx])
         out.append(["insert", "dfg", p.idx])
     vals = META_VALUES if tier == "thorough" else META_VALUES[:2] + META_VALUES[5:]
@@ -74,6 +77,12 @@ def apply(h, m):
     elif k == "addnode":
         if m[2] == "custom":
             h.add_node(ops.Custom("added", tys.FunctionType([tys.Bool], [tys.Qubit], ["e.x"]), "desc", "e.x", [tys.BoundedNatArg(2)]), Node(m[1]), 1, metadata={"added": True})
+        elif m[2] == "natdecl":
+            # unbounded nat parameter: the wire format carries an explicit null here
+            sig = tys.PolyFuncType([tys.BoundedNatParam(), tys.ListParam(tys.TupleParam([tys.StringParam()]))], tys.FunctionType([], [tys.Tuple()]))
+            h.add_node(ops.FuncDecl("natdecl", sig), Node(m[1]))
+        elif m[2] == "nullconst":
+            h.add_const(val.Extension("NullPayload", tys.Opaque("T", tys.TypeBound.Copyable, [tys.VariableArg(0, tys.BoundedNatParam())], "e.x"), None, ["e.x"]), Node(m[1]))
         else:
             h.add_const(val.Tuple(val.TRUE, val.FALSE), Node(m[1]))
     elif k == "insert":
